@@ -161,6 +161,13 @@ func TestVerifC13(t *testing.T) {
 			}
 			msg := vfBuildAt(j.root, j.path, v, false)
 			frame(j.root, msg, cls, vrt.PathSignature(j.path), "path "+j.path.String(), map[string]any{"root": j.root.String(), "path": j.path.String(), "class": cls})
+			// histories: the mapped name with an event of a type that carries no namespace before / after the event on the path
+			if cls == "mapped" && (vrt.PathEventType(j.path) != "" || vrt.PathBlobField(j.path) != "") {
+				for _, pad := range []string{"skippable-event-before", "skippable-event-after"} {
+					msg := vfBuildAtPadded(j.root, j.path, v, pad)
+					frame(j.root, msg, cls+"/"+pad, vrt.PathSignature(j.path), "path "+j.path.String()+" ("+pad+")", map[string]any{"root": j.root.String(), "path": j.path.String(), "class": cls, "pad": pad})
+				}
+			}
 		}
 	})
 	vfParallel(len(roots), func(i int) {
